@@ -4,12 +4,17 @@ import importlib
 from .. import harness, refsem
 from ..core import sha
 
-FAMILIES = ["f1_expr"]
+FAMILIES = ["f1_expr", "f2_portrefs"]
 
 
 def _one(item):
-    fam, design = item
-    return harness.check_valid(design)
+    fname, desc = item
+    mod = importlib.import_module(f"hv.families.{fname}")
+    fam, design = mod.design(desc)
+    res = harness.check_valid(design, allow_invalid=True)
+    if res is None or isinstance(res, str):
+        return fam, res, None
+    return fam, res, design
 
 
 def signature(fam, res):
@@ -20,23 +25,41 @@ def signature(fam, res):
     return s
 
 
-def run(ctx):
+def run_families(ctx, families, one=_one):
     items = []
-    for f in FAMILIES:
+    for f in families:
         mod = importlib.import_module(f"hv.families.{f}")
-        fam_items = mod.family(ctx.tier)
-        ctx.fam(f, designs=len(fam_items))
-        items += fam_items
-    results = ctx.pmap(_one, items)
-    for (fam, design), res in zip(items, results):
+        its = mod.items(ctx.tier)
+        ctx.fam(f, enumerated=len(its))
+        items += [(f, d) for d in its]
+    results = ctx.pmap(one, items)
+    first = {}
+    for (fname, desc), (fam, res, design) in zip(items, results):
+        if res == "skip":
+            ctx.fam(fname, invalid_by_reference=1)
+            continue
         ctx.count(states=1, transitions=3, traces_validated_against_impl=1)
+        ctx.fam(fname, executed=1)
+        if fname not in first:
+            first[fname] = (fname, desc)
+        if res == "grey_raised":
+            ctx.fam(fname, grey_self_referential_raised=1)
+            ctx.outcome("grey_raised:" + fam)
+            continue
         if res is None:
             ctx.outcome("agree:" + fam)
             continue
         ctx.outcome(res["kind"] + ":" + fam)
         ctx.violation(signature(fam, res), dict(family=fam, design=design), res)
-    for k in (0, len(items) // 2, len(items) - 1):
-        ctx.sample(dict(family=items[k][0], design=items[k][1]))
+    for fname, desc in first.values():
+        mod = importlib.import_module(f"hv.families.{fname}")
+        fam, design = mod.design(desc)
+        ctx.sample(dict(family=fam, design=design), limit=12)
+    return items, results
+
+
+def run(ctx):
+    run_families(ctx, FAMILIES)
     ctx.assume("vlsirtools netlisters are the trusted reading of a package", "claims hold up to the family bounds listed under coverage.families")
 
 
